@@ -192,6 +192,9 @@ def strip_bonding_descriptors(fragment_string):
                                                                      prev_node,
                                                                      rings)
             smile += part_str
+            # a bond order symbol in front of a ring number belongs
+            # to the ring bond and not to a following bonding descriptor
+            current_order = None
         elif token in '] H . - = # $ : + -':
             smile += token
         # deal with ez isomers
